@@ -29,6 +29,11 @@ def run(ctx):
     check_arm_purity(ctx, "E2-A", P, with_mappers(P, fns))
     check_dispatching(ctx, "E2-A", P, [f for f in fns if f.key != "SignCryptCiphertext<C>::create_decryption_share"])
     check_tag_control_dependence(ctx, "E2-B", P, only={g.key for g in with_mappers(P, fns)})
+    # any t distinct shares open the ciphertext, in any order
+    F.check_order_insensitive(ctx, "E4.set-order", P, ("BlsSignCrypt::unseal_with_shares", "SignCryptCiphertext<C>::decrypt_with_shares", "SignCryptDecryptionKey<C>::from_shares", "BlsSignatureCore::core_combine_public_key_shares"))
+    from . import aborts as A_
+
+    A_.check_aborts(ctx, "E8", P, ["SignCryptCiphertext<C>::decrypt_with_shares", "SignDecryptionShare<C>::verify", "SignCryptDecryptionKey<C>::from_shares"], scope="C12")
     # threshold decryption is offered for every scheme label (the label only selects the tag)
     from . import spec as SP
 
@@ -96,7 +101,7 @@ def run(ctx):
         dec = [s for s in ev.sites.values() if s.callee[0] == "BlsSignCrypt::decrypt"]
         ok = False
         if dec:
-            lits = G.path_literals(ev, dec[0].bb, P)
+            lits = G.path_literals(ev, dec[0].bb, P, checks_only=True)
             ok = R.len_at_least(lits, "shares", 2)
             ua = strip_sites(dec[0].args[1])
             comb = [t for t in subterms(ua) if t.op == "call" and B.cname(t) == "vsss_rs::combine_shares_group"]
